@@ -191,7 +191,10 @@ func TestC30(t *testing.T) {
 	rec.Evaluations(evals)
 	rec.AddNT(nontrivial)
 	rec.Sample(map[string]interface{}{"zone": "America/New_York", "tf": "1H", "timestamp": "2021-11-07T01:30:00-04:00 (repeated hour)",
-		"index": func() int64 { utils.InstanceConfig.Timezone = locs["America/New_York"]; return io.TimeToIndex(time.Unix(1636263000, 0), time.Hour) }()})
+		"index": func() int64 {
+			utils.InstanceConfig.Timezone = locs["America/New_York"]
+			return io.TimeToIndex(time.Unix(1636263000, 0), time.Hour)
+		}()})
 	utils.InstanceConfig.Timezone = time.UTC
 	rec.Flush()
 }
